@@ -458,7 +458,9 @@ class Resource(object):
             external_uri.plain = norm_plain
             external_uri._split()
             resource = rset.get_resource(external_uri)
-            if external_uri.plain != original_uri:
+            # only an absolute (protocol-bearing) uri is a safe extra key: a
+            # relative string means another file for a resource elsewhere
+            if external_uri.plain != original_uri and ':/' in original_uri:
                 rset.resources[original_uri] = resource
             return rset
         except Exception as e:
